@@ -108,10 +108,15 @@ def outcome(res, new_payload):
     if res["mode"] in ("kill", "fault"):
         ev = [e for e in res["events"] if e["i"] == res["k"]]
         role = ev[0]["role"] if ev else None
+    kill_role = None
+    if res.get("variant") and "kill@" in res["variant"]:
+        j = int(res["variant"].rsplit("kill@", 1)[1])
+        ev = [e for e in res["events"] if e["i"] == j and e["kind"] == "kill"]
+        kill_role = ev[0]["role"] if ev else None
     fcall = "none"
     if res["mode"] == "fault":
         fcall = role if role in SPEC_CALLS else "other"
-    return {"how": how, "fcall": fcall, "role": role, "dest": dest, "tmp": tmp, "left": left}
+    return {"how": how, "fcall": fcall, "role": role, "kill_role": kill_role, "dest": dest, "tmp": tmp, "left": left}
 
 
 def abstract_trace(res, new_payload, out):
